@@ -110,8 +110,10 @@ def check_C09(ctx, rep):
             rep.fail("R23", ident, "anchor-lost:" + ident, "%s not found (reason=anchor-lost)" % ident); continue
         tr = H.tree_of(f, b, "none")
         exp = call("core::result::Result::<T, E>::ok<%s,TwoFloatError>" % t, call("<%s as core::convert::TryFrom<&TwoFloat>>::try_from" % t, a))
+        # the by-value twin has the identical body (R21/R22 check both twins against the same reference)
+        exp2 = call("core::result::Result::<T, E>::ok<%s,TwoFloatError>" % t, call("<%s as core::convert::TryFrom<TwoFloat>>::try_from" % t, a))
         n23 += 1
-        rep.check(tr[0] == "leaf" and tr[1] is exp, "R23", "ToPrimitive::to_%s" % t, "delegation:to_" + t, "to_%s is not %s::try_from(self).ok(): %s" % (t, t, vg.show(tr)[:200]), where=H.where(b), nontrivial=False)
+        rep.check(tr[0] == "leaf" and (tr[1] is exp or tr[1] is exp2), "R23", "ToPrimitive::to_%s" % t, "delegation:to_" + t, "to_%s is not %s::try_from(self).ok(): %s" % (t, t, vg.show(tr)[:200]), where=H.where(b), nontrivial=False)
     for pre, tys, kind in (("from_", "i", "FromPrimitive"), ("from_", "u", "FromPrimitive"), ("to_", "i", "ToPrimitive"), ("to_", "u", "ToPrimitive")):
         ident = "<TwoFloat as num_traits::%s>::%s%ssize" % (kind, pre, tys)
         b = f.get(ident)
